@@ -234,10 +234,19 @@ def small_gauss(rng, d):
 
 
 def num_items(rng, pattern, general):
+    """exact (Gaussian-integer) items; with probability 1/3 a qubit pattern that occurs again re-uses the very same [matrix, qubits]
+    list object (a gate object appended to the list several times): equivalence is about the list as written, aliasing included"""
     items = []
+    alias = rng.random() < 1 / 3
+    seen = {}
     for q in pattern:
         d = 4 if (len(q) == 2 and q[1] != -1) else 2
-        items.append([small_gauss(rng, d) if general else phased_perm(rng, d), list(q)])
+        key = tuple(q)
+        if alias and key in seen and rng.random() < 0.7:
+            items.append(seen[key]); continue
+        it = [small_gauss(rng, d) if general else phased_perm(rng, d), list(q)]
+        seen[key] = it
+        items.append(it)
     return items
 
 
@@ -376,4 +385,25 @@ def oracle_backend(be, rng, n, pattern, general=None):
         return "BinaryBackend.statevector raised %s on a well-formed list of floating-point matrices" % type(e).__name__
     if not float_close(fout.reshape(-1), apply_seq(n, fref, fpsi.reshape((2,) * n)).reshape(d)):
         return "statevector differs from sequential application on floating-point matrices with near-identity entries (beyond 1e-12 relative)"
+    # ONE backend object per register size serves every call of this process (a circuit object keeps its backend): each call must
+    # still apply the matrices it is given, also when their arrays are the previous call's arrays re-filled in place
+    pb = _PERSISTENT.get(n)
+    if pb is None:
+        pb = _PERSISTENT[n] = (be.BinaryBackend(nqubit=n), {})
+    backend, buffers = pb
+    pitems = []
+    for i, (m, q) in enumerate(num_items(rng, pattern, general)):
+        buf = buffers.setdefault((i % 5, m.shape[0]), np.zeros(m.shape, dtype=complex))   # a small pool of arrays re-used across calls
+        buf[:] = m
+        pitems.append([buf, list(q)])
+    pref = [[np.array(m), list(q)] for m, q in pitems]
+    try:
+        pout = np.asarray(backend.statevector(pitems, psi_keep.copy()))
+    except Exception as e:  # noqa
+        return "a re-used BinaryBackend object raised %s on a well-formed list" % type(e).__name__
+    if not np.array_equal(pout.reshape(-1), apply_seq(n, pref, psi_keep.reshape((2,) * n)).reshape(d)):
+        return "a BinaryBackend object that served earlier calls returns a different statevector than sequential application (matrices held in re-filled arrays)"
     return None
+
+
+_PERSISTENT = {}
